@@ -484,7 +484,7 @@ pub fn main(args: &Args, cfg: &str) -> i32 {
             }
         };
     }
-    let cases = if args.cases > 0 { args.cases } else if args.thorough() { 200000 } else { 8000 };
+    let cases = if args.cases > 0 { args.cases } else if args.thorough() { 400000 } else { 40000 };
     let res = drive(&case_strategy(), cases, args.seed ^ 0xC14, 2000, &mut run, |c, run| interpret(c, Some(run)));
     let code = match res {
         DriveResult::Pass => 0,
